@@ -383,6 +383,45 @@ def rule_lifetime(ctx, ix):
             for d in drops:
                 ctx.instance("C13.lifetime")
                 ctx.fail("C13.lifetime", f"{rel}:{d[:70]}", "a gc wrapper is dropped from the holder: its destructor frees the array while the structure lives")
+    # nothing but the Tensor (and the frames using it) may hold the structure strongly: a memoised function called with
+    # the structure, or a module-level table keyed by it that is not the weak-key table, keeps it - and with it the
+    # holder and every array - alive after the last Tensor is gone
+    cached = {}
+    for q, f in ix.funcs.items():
+        if any(re.match(r"(functools\.)?(lru_cache|cache)\b", u(d)) for d in f.node.decorator_list):
+            cached[f.name] = q
+    for q, f in ix.funcs.items():
+        rel = f"{ix.rel(f.module)}:{q.split(f.module + '.', 1)[-1]}"
+        for call in ix.calls_in(f):
+            name = u(call.func).split(".")[-1]
+            if name in cached:
+                args = [u(a) for a in call.args] + [u(k.value) for k in call.keywords]
+                if any(re.search(r"cffi_tensor|cffi_output", a) for a in args):
+                    ctx.instance("C13.lifetime")
+                    ctx.fail(
+                        "C13.lifetime",
+                        f"{rel}:{u(call)[:70]}",
+                        f"the memoised function {cached[name].split('tensora.', 1)[-1]} is called with a tensor's C structure: its cache keeps the structure "
+                        "(the weak key of the holder) alive, so the arrays are not released when the last Tensor goes away",
+                    )
+    for m, tree in ix.modules.items():
+        tables = {}
+        for st in tree.body:
+            if isinstance(st, (ast.Assign, ast.AnnAssign)) and st.value is not None:
+                tgt = st.targets[0] if isinstance(st, ast.Assign) else st.target
+                if isinstance(tgt, ast.Name) and isinstance(st.value, (ast.Dict, ast.Call)) and u(st.value).split("(")[0] in ("{}", "dict", "OrderedDict", "defaultdict", "{"):
+                    tables[tgt.id] = st
+        if not tables:
+            continue
+        for q, f in ix.funcs.items():
+            if f.module != m:
+                continue
+            for n in ast.walk(f.node):
+                if isinstance(n, ast.Assign):
+                    for t in n.targets:
+                        if isinstance(t, ast.Subscript) and isinstance(t.value, ast.Name) and t.value.id in tables and re.search(r"cffi_tensor|cffi_output", u(t.slice)):
+                            ctx.instance("C13.lifetime")
+                            ctx.fail("C13.lifetime", f"{ix.rel(m)}:{f.name}:{u(t)[:60]}", "a module-level table that is not weak-keyed is keyed by a tensor's C structure: the structure is never released")
     if n_gc < 1:
         raise AnalysisError("no ffi.gc site found (anchor vanished)")
 
